@@ -220,8 +220,12 @@ def processStmt (d : Dev) (a : Action) (o : Oracle) (now : Time) : StepR :=
         | some (p :: q :: r) => hsprintf fmt (some (rangedNames ((p :: q :: r).map (·.name))))
         | some [p] => hsprintf fmt (some p.name)
         | _ => hsprintf fmt none
-      let d := { d with toBuf := d.toBuf ++ s }
-      let tele := if a.telemetry then [Out.telemetry a.clientId (str "send(dev): '" ++ memstr s ++ str "'")] else []
+      -- `dev->to` holds `MAX_DEV_BUF` = 65536 bytes (overwrite mode: the oldest unsent bytes give way; `Pm.Dev2.clipTo`);
+      -- an overrun is logged and the telemetry line is not produced
+      let b := d.toBuf ++ s
+      let tele := if 65536 < b.length then [] else
+        if a.telemetry then [Out.telemetry a.clientId (str "send(dev): '" ++ memstr s ++ str "'")] else []
+      let d := { d with toBuf := if 65536 < b.length then b.drop (b.length - 65536) else b }
       let a := setTop a { e with processing := true }
       if d.toBuf.isEmpty then ⟨d, setTop a { e with processing := false }, o, [.sent s] ++ tele, true⟩
       else ⟨d, a, o, [.sent s] ++ tele, false⟩
